@@ -130,7 +130,7 @@ def strategy():
                     if b == 'N' and ref[p] == 'N' and err > 1:
                         b = draw(st.sampled_from('ACGT'))
                     seq.append(b)
-                    qual.append(draw(st.sampled_from([20, 30, 30, 40])))
+                    qual.append(draw(st.sampled_from([20, 30, 30, 40, 30, 40, 0])))
                 clip = draw(st.sampled_from([0, 0, 0, 2]))
                 reads.append({'pos': s, 'cigar': ('%dS' % clip if clip else '') + '%dM' % (e - s),
                               'seq': 'A' * clip + ''.join(seq), 'qual': [30] * clip + qual})
@@ -151,7 +151,7 @@ def strategy():
                 m2 = {k: v for k, v in m.items()}
                 m2['tid'] = 1 - m['tid']
                 mols[1] = m2
-        return {'refs': refs, 'mols': mols}
+        return {'refs': refs, 'mols': mols, 'mask': draw(st.sampled_from([None, None, [draw(st.integers(0, 50)), draw(st.integers(3, 80))]]))}
     return case()
 
 
@@ -250,7 +250,9 @@ def eval_case(case):
     d = scratch_dir()
     fa = os.path.join(d, 'ref_%d.fa' % os.getpid())
     from ..common.fragsim import write_fasta
-    write_fasta(fa, [('ctg%d' % i, r) for i, r in enumerate(case['refs'])])
+    # the reference file may be soft-masked (lower case stretches); contexts are case-insensitive
+    mk = case.get('mask')
+    write_fasta(fa, [('ctg%d' % i, (r if not mk else r[:mk[0]] + r[mk[0]:mk[0] + mk[1]].lower() + r[mk[0] + mk[1]:])) for i, r in enumerate(case['refs'])])
     contigs = [('ctg%d' % i, len(r)) for i, r in enumerate(case['refs'])]
     h = header(contigs)
     taps = TAPS()
